@@ -720,6 +720,88 @@ impl FdsCase {
         Some(vec![format!("sigdirect {head} regular-closes={regular} direct-releases={direct} regular-open={}", u8::from(still_open))])
     }
 
+    /// `AsyncFd::try_clone` (src/fd.rs:158-162) on a ring of its own: the clone owns a NEW regular
+    /// descriptor (dup of the original); dropping the two handles in either order (`ab` / `ba`) closes
+    /// each descriptor exactly once.
+    fn do_tryclone(&mut self, order: &str) -> Option<Vec<String>> {
+        if !matches!(order, "ab" | "ba") {
+            return None;
+        }
+        let pre = simk::drain_events();
+        simk::purge_closed();
+        let rings_before: Vec<i32> = simk::with_sim(|s| s.rings.keys().copied().collect());
+        let mut ring_b = match Ring::config().with_submission_queue_size(8).with_direct_descriptors(4).build() {
+            Ok(r) => r,
+            Err(e) => return Some(vec![format!("tryclone setup-failed {e}")]),
+        };
+        let Some(rfd_b) = simk::with_sim(|s| s.rings.keys().copied().find(|k| !rings_before.contains(k))) else {
+            return Some(vec!["tryclone no-new-ring".into()]);
+        };
+        let sq_b = ring_b.sq();
+        let line;
+        {
+            let r = simk::with_ring(rfd_b, |ring, _| ring.fresh_fd());
+            let a = unsafe { AsyncFd::from_raw_fd(r, sq_b.clone()) };
+            let open_fds = || -> Vec<i32> { (3..1024).filter(|fd| raw_fcntl_getfd(*fd) >= 0).collect() };
+            let before = open_fds();
+            let b = match util::catch(|| a.try_clone()) {
+                Ok(Ok(b)) => b,
+                Ok(Err(e)) => {
+                    drop(a);
+                    return Some(vec![format!("tryclone err {}", err_num(&e))]);
+                }
+                Err(_) => return Some(vec!["tryclone panic".into()]),
+            };
+            let new: Vec<i32> = open_fds().into_iter().filter(|fd| !before.contains(fd)).collect();
+            let r2 = new.first().copied().unwrap_or(-1);
+            if r2 >= 0 {
+                simk::with_ring(rfd_b, |ring, _| ring.issued_fds.push(r2));
+            }
+            let _ = simk::drain_events();
+            if order == "ab" {
+                drop(a);
+                let _ = ring_b.poll(Some(Duration::ZERO));
+                drop(b);
+            } else {
+                drop(b);
+                let _ = ring_b.poll(Some(Duration::ZERO));
+                drop(a);
+            }
+            let _ = ring_b.poll(Some(Duration::ZERO));
+            let (mut ca, mut cb) = (0, 0);
+            for e in simk::drain_events() {
+                match e {
+                    KEv::CloseReq { fd, direct: false, .. } | KEv::CloseFd { fd, .. } if fd == r => ca += 1,
+                    KEv::CloseReq { fd, direct: false, .. } | KEv::CloseFd { fd, .. } if fd == r2 => cb += 1,
+                    _ => {}
+                }
+            }
+            let distinct = new.len() == 1 && r2 != r;
+            let open_a = raw_fcntl_getfd(r) >= 0;
+            let open_b = r2 >= 0 && raw_fcntl_getfd(r2) >= 0;
+            if !distinct || ca != 1 || cb != 1 || open_a || open_b {
+                self.fail("C07/try-clone/ownership", format!("try_clone: original descriptor {r} closed {ca} times (open: {open_a}), the clone's descriptor {r2} closed {cb} times (open: {open_b}), new descriptors created: {}", new.len()));
+            }
+            for fd in [r, r2] {
+                if fd >= 0 && raw_fcntl_getfd(fd) >= 0 {
+                    unsafe { simk::raw_syscall(libc::SYS_close, fd as i64, 0, 0, 0, 0, 0) };
+                }
+            }
+            line = format!("tryclone ok distinct={} closes={ca},{cb} open={},{}", u8::from(distinct), u8::from(open_a), u8::from(open_b));
+        }
+        drop(sq_b);
+        drop(ring_b);
+        let _ = simk::drain_events();
+        let _ = util::drain_wakes();
+        simk::with_sim(|sim| {
+            let mut keep = pre;
+            keep.append(&mut sim.events);
+            sim.events = keep;
+        });
+        self.feats.push(format!("try-clone/{order}"));
+        Some(vec![line])
+    }
+
     fn exec_inner(&mut self, op: &str) -> Vec<String> {
         let t: Vec<&str> = op.split(' ').collect();
         let mut out: Vec<String> = Vec::new();
@@ -1121,6 +1203,12 @@ impl FdsCase {
                     out.push(if done { format!("posted {}", raws.iter().map(|r| key(k, *r)).collect::<Vec<_>>().join(",")) } else { "panic".into() });
                 }
             }
+            ["fds", "tryclone", order] => {
+                out = match self.do_tryclone(order) {
+                    Some(l) => l,
+                    None => return bad(),
+                };
+            }
             ["fds", "sigdirect", outcome] => {
                 out = match self.do_sigdirect(outcome) {
                     Some(l) => l,
@@ -1266,6 +1354,9 @@ impl Case for FdsCase {
                 return Some(format!("fds dropop {i}"));
             }
             return Some(self.gen_pipe2_poll(rng, i));
+        }
+        if rng.chance(1, 60) {
+            return Some(format!("fds tryclone {}", *rng.pick(&["ab", "ba"])));
         }
         // an owned conversion on a ring of its own (Signals::to_direct_descriptor)
         if rng.chance(1, 40) {
